@@ -5,7 +5,7 @@ PROPS = {
         "technique": "Verus contracts on hazmat helpers and subtree functions against the tree-level spec",
         "level_text": "unbounded deductive proof (Verus/z3) over the real hazmat functions",
         "level_note": "trusted: Verus+z3, extraction rules, std intrinsics (next_power_of_two, trailing_zeros), SIMD kernels assumed (C05)",
-        "units": {"quick": [v("hasher"), v("tree"), v("xof"), v("spec_lemmas"), v("group_lemmas"), k("left_subtree_len"), k("max_subtree_len")], "thorough": [v("hasher", "C")]},
+        "units": {"quick": [v("hasher"), v("tree"), v("xof"), v("spec_lemmas"), v("group_lemmas"), k("left_subtree_len"), k("max_subtree_len")], "thorough": [v("hasher", "C"), s("C09")]},
         "cone": [r"crate::hazmat::", r"crate::Hasher::", r"crate::compress_subtree", r"crate::parent_node_output",
                  r"crate::Output::", r"\(contract\)"],
         "explanation": "left_subtree_len / max_subtree_len: closed forms on the whole stated domain (Verus + complete Kani "
